@@ -362,6 +362,8 @@ type svH struct {
 	idx      int
 	inOp     bool
 	returned bool
+	lastRes  string // result of the last completed operation
+	nRes     int
 }
 
 type svObs struct {
@@ -432,6 +434,14 @@ func (r *svRig) enter(unary bool, ctx context.Context, payload int64, stream grp
 	return h
 }
 
+func (r *svRig) opRes(h *svH, res string) {
+	r.mu.Lock()
+	h.lastRes = res
+	h.nRes++
+	r.events = append(r.events, fmt.Sprintf("SvOp %d %s", h.idx, res))
+	r.mu.Unlock()
+}
+
 func (r *svRig) setInOp(h *svH, b bool) {
 	r.mu.Lock()
 	h.inOp = b
@@ -461,16 +471,16 @@ func (r *svRig) unaryImpl(ctx context.Context, req []byte) ([]byte, bool, error)
 		op := <-h.gate
 		switch op.Op {
 		case "sethdr":
-			r.ev(fmt.Sprintf("SvOp %d %s", h.idx, svErrRes(grpc.SetHeader(ctx, svMdMD(op.T)))))
+			r.opRes(h, svErrRes(grpc.SetHeader(ctx, svMdMD(op.T))))
 		case "sendhdr":
-			r.ev(fmt.Sprintf("SvOp %d %s", h.idx, svErrRes(grpc.SendHeader(ctx, svMdMD(op.T)))))
+			r.opRes(h, svErrRes(grpc.SendHeader(ctx, svMdMD(op.T))))
 		case "settrl":
-			r.ev(fmt.Sprintf("SvOp %d %s", h.idx, svErrRes(grpc.SetTrailer(ctx, svMdMD(op.T)))))
+			r.opRes(h, svErrRes(grpc.SetTrailer(ctx, svMdMD(op.T))))
 		case "await":
 			r.setInOp(h, true)
 			<-ctx.Done()
 			r.setInOp(h, false)
-			r.ev(fmt.Sprintf("SvOp %d OAwaited", h.idx))
+			r.opRes(h, "OAwaited")
 		case "return":
 			r.mu.Lock()
 			h.returned = true
@@ -517,27 +527,27 @@ func (r *svRig) streamImpl(kind string, s grpc.ServerStream) error {
 					res = svErrRes(err)
 				}
 			}
-			r.ev(fmt.Sprintf("SvOp %d %s", h.idx, res))
+			r.opRes(h, res)
 		case "send":
 			r.setInOp(h, true)
 			err := s.SendMsg(bv(payloadOf(op.B)))
 			r.setInOp(h, false)
-			r.ev(fmt.Sprintf("SvOp %d %s", h.idx, svErrRes(err)))
+			r.opRes(h, svErrRes(err))
 		case "sendhdr":
 			r.setInOp(h, true)
 			err := s.SendHeader(svMdMD(op.T))
 			r.setInOp(h, false)
-			r.ev(fmt.Sprintf("SvOp %d %s", h.idx, svErrRes(err)))
+			r.opRes(h, svErrRes(err))
 		case "sethdr":
-			r.ev(fmt.Sprintf("SvOp %d %s", h.idx, svErrRes(s.SetHeader(svMdMD(op.T)))))
+			r.opRes(h, svErrRes(s.SetHeader(svMdMD(op.T))))
 		case "settrl":
 			s.SetTrailer(svMdMD(op.T))
-			r.ev(fmt.Sprintf("SvOp %d OOk", h.idx))
+			r.opRes(h, "OOk")
 		case "await":
 			r.setInOp(h, true)
 			<-ctx.Done()
 			r.setInOp(h, false)
-			r.ev(fmt.Sprintf("SvOp %d OAwaited", h.idx))
+			r.opRes(h, "OAwaited")
 		case "return":
 			r.mu.Lock()
 			h.returned = true
@@ -554,8 +564,10 @@ func (r *svRig) streamImpl(kind string, s grpc.ServerStream) error {
 }
 
 // svCensus counts the goroutines of the current bubble that belong to the server connection.
+var svStackBuf = make([]byte, 2<<20)
+
 func svCensus() (writer, workers, hs int) {
-	buf := make([]byte, 8<<20)
+	buf := svStackBuf
 	n := runtime.Stack(buf, true)
 	gs := strings.Split(string(buf[:n]), "\n\n")
 	bubbleTag := ""
